@@ -543,7 +543,8 @@ def rule_conv(chk, P):
             rets = [x for x in F.walk(n["then"]) if x.get("k") == "Return"]
             if len(nones) == 3 and rets:
                 v = F.leftmost_var(rets[0]["e"])
-                early = v is not None and v.get("name") == "expr"
+                epar = [q.get("pat", {}).get("id") for q in ap["params"] if "Expression" in q.get("ty", "") and "ImplicitConversion" not in q.get("ty", "")]
+                early = v is not None and v["id"] in epar
     chk.ob(P + ".conv/explicit-cast", tail_is_cast and early,
            "apply returns the expression unchanged only when no cast is needed, otherwise an explicit Expression::Cast" if tail_is_cast and early else
            "ImplicitConversion::apply no longer ends in an explicit ir::Expression::Cast (or returns the raw expression in more cases)", where(ap))
